@@ -6,6 +6,7 @@ Search: the property itself on the real code: HasMeta(QuoteMeta(s)) is false, th
 (pattern.Regexp+regexp, and the interpreter's ExtendedOperators matcher) accept s and nothing else for QuoteMeta(s),
 and at most unescape(p) for a HasMeta-false p."""
 import json
+import os
 
 import c17 as C
 
@@ -17,7 +18,8 @@ def run(ctx):
         return
     quick = ctx.tier == "quick"
     rc, rows, err = ctx.jsonl([binp, "meta", "-seed", str(ctx.seed), "-n", "2000", "-tier", ctx.tier], timeout=1800)
-    rc2, wrows, err2 = ctx.jsonl([binp, "list", "--", "@(a)", "@(a|b)", "a*b", "\\", "[a", "é*", "+(a"], timeout=300)
+    pinned = C.read_regress(os.path.join(C.ROOT, "corpus", "c18", "regress.txt"))   # runs first, on every seed and tier
+    rc2, wrows, err2 = ctx.jsonl([binp, "list", "--"] + pinned + ["@(a)", "@(a|b)", "a*b", "\\", "[a", "é*", "+(a"], timeout=300)
     if rc != 0 or rc2 != 0 or not rows:
         ctx.broken.append(("harness-run", "c18 meta failed rc=%d %s" % (rc, (err + err2)[-600:])))
         return
@@ -50,7 +52,8 @@ def run(ctx):
                  "go_hasq": sub[i]["hasq"], "go_hass": sub[i]["hass"], "kind": v} for i, v in res]
         ctx.leg("code:pattern.QuoteMeta/HasMeta vs Translate.quote_meta_glob/has_meta (vm_compute)", len(items), mism)
     # ---- oracle leg: in bash without extglob, QuoteMeta(s) matches exactly s (what C18_quotemeta_matches_only_self says of the spec)
-    osub = [r for r in rows[::(2 if quick else 10)] if r.get("strs") and "1f" not in [r["hex"][i:i + 2] for i in range(0, len(r["hex"]), 2)]]
+    # (the empty string is skipped here: the oracle file cannot carry a second empty test string)
+    osub = [r for r in rows[::(2 if quick else 10)] if r.get("strs") and r["hex"] != "" and "1f" not in [r["hex"][i:i + 2] for i in range(0, len(r["hex"]), 2)]]
     items = [(bytes.fromhex(r["qhex"]).decode(), [bytes.fromhex(x).decode() for x in r["strs"]]) for r in osub]
     bits = C.run_bash(ctx, "case_noext", items)
     quoted = C.run_bash(ctx, "quoted", [(bytes.fromhex(r["hex"]).decode(), it[1]) for r, it in zip(osub, items)])
